@@ -476,8 +476,13 @@ def run_property(mod, tier, seed, jobs=None):
         "violations": len(violations),
         "repo": os.environ.get("VERIF_REPO", "/repo"),
     }
-    os.makedirs(os.path.join(ROOT, "evidence"), exist_ok=True)
-    with open(os.path.join(ROOT, "evidence", prop + ".json"), "w") as f:
+    # evidence/ only ever describes runs against /repo itself; runs against a scratch copy (mutants, seeded
+    # changes: VERIF_REPO set) leave their evidence under .build/
+    evdir = os.path.join(ROOT, "evidence")
+    if os.path.realpath(os.environ.get("VERIF_REPO", "/repo")) != os.path.realpath("/repo"):
+        evdir = os.path.join(ROOT, ".build", "evidence-scratch")
+    os.makedirs(evdir, exist_ok=True)
+    with open(os.path.join(evdir, prop + ".json"), "w") as f:
         json.dump(evidence, f, indent=1, sort_keys=True)
 
     for e in load_known():
